@@ -303,6 +303,11 @@ class Interp(ExprMixin, CallMixin):
                 else:
                     cur.items.extend(items)
                 return 'next'
+            if isinstance(st.op, (ast.Add, ast.Sub, ast.BitOr, ast.BitAnd, ast.BitXor)) and isinstance(cur, SelfV) and cur.path and \
+                    not self.known_immutable(cur):
+                # ``x op= y`` on a local that *is* an attribute of self (handed down as an argument, or aliased): for a list, a
+                # set or a bytearray the operator works in place - the object's own container is changed
+                fr.emit(Effect('inplace', cur, ({ast.Add: '+=', ast.Sub: '-=', ast.BitOr: '|=', ast.BitAnd: '&=', ast.BitXor: '^='}[type(st.op)], v), st, fr.func))
             fr.env[t.id] = self.binop(st.op, cur, v)
             return 'next'
         if isinstance(t, ast.Attribute):
@@ -318,6 +323,16 @@ class Interp(ExprMixin, CallMixin):
             base = self.eval(t.value, fr)
             fr.emit(Effect('augassign', base, ('[]', v), st, fr.func))
         return 'next'
+
+    @staticmethod
+    def known_immutable(v):
+        """is the value of this attribute of self a number, a string, bytes, a tuple, a frozenset or an enum member (its declared
+        type says so)?  then ``op=`` re-binds the local and leaves the object alone"""
+        t = getattr(v, 'typ', None)
+        if isinstance(t, ClassInfo):
+            return t.enum_members is not None
+        d = getattr(t, 'dotted', None)
+        return d in ('builtins.int', 'builtins.str', 'builtins.bytes', 'builtins.tuple', 'builtins.frozenset', 'builtins.bool', 'builtins.float')
 
     def s_Delete(self, st, fr):
         for t in st.targets:
